@@ -112,7 +112,8 @@ func runC10(c *Case) {
 	r := c.Rng
 	tbl := &authzTable{seed: r.Uint64(), denyPct: 10 + r.IntN(36)}
 	localAuthz := chance(r, 40)
-	realm := RealmSetup{RealmSpec: model.RealmSpec{Name: "realm1", AllowDisclose: chance(r, 50), MetaKill: true}, Authorizer: tbl, RequireLocalAuthz: localAuthz}
+	localAuth := chance(r, 35)
+	realm := RealmSetup{RealmSpec: model.RealmSpec{Name: "realm1", AllowDisclose: chance(r, 50), MetaKill: true}, Authorizer: tbl, RequireLocalAuthz: localAuthz, RequireLocalAuth: localAuth}
 	var setups []PuppetSetup
 	var script []string
 	kinds := map[string]map[int]bool{}
@@ -132,6 +133,12 @@ func runC10(c *Case) {
 				ps.Kind = sim.Local
 			}
 			ps.Features = nil
+			if localAuth && ps.Kind == sim.Local {
+				ps.LocalAuth = true
+				if ps.AuthID == "" {
+					ps.AuthID = pick(r, authIDs)
+				}
+			}
 			setups = append(setups, ps)
 			run.Join(ps)
 		}
@@ -320,9 +327,9 @@ func runC10(c *Case) {
 	for _, ps := range setups {
 		sb.WriteString(ps.String() + ";")
 	}
-	c.Key = fmt.Sprintf("tbl=%d/%d localauthz=%v|%s|%s", tbl.seed, tbl.denyPct, localAuthz, sb.String(), strings.Join(script, "\n"))
+	c.Key = fmt.Sprintf("tbl=%d/%d localauthz=%v localauth=%v|%s|%s", tbl.seed, tbl.denyPct, localAuthz, localAuth, sb.String(), strings.Join(script, "\n"))
 	if c.Index < 3 || len(c.Viol) > 0 {
 		c.Sample = map[string]any{"authorizer": fmt.Sprintf("decision table seed=%d deny=%d%% fail=8%% rewrite=8%% tag=4%%", tbl.seed, tbl.denyPct),
-			"require_local_authz": localAuthz, "sessions": puppetStrings(setups), "script": clip(script, 70)}
+			"require_local_authz": localAuthz, "require_local_auth": localAuth, "sessions": puppetStrings(setups), "script": clip(script, 70)}
 	}
 }
